@@ -215,6 +215,12 @@ func (f *File) enterWriteMode() error {
 		"name": f.name,
 	})
 
+	// The offset reached by reading so far; it stays the offset once the content is in the write buffer
+	pos := int64(0)
+	if f.readOpReader != nil {
+		pos = int64(f.readOpReader.BytesRead)
+	}
+
 	if f.readOpReader != nil || f.readOpWriter != nil {
 		if err := f.closeWithoutLocking(); err != nil {
 			return err
@@ -276,10 +282,8 @@ func (f *File) enterWriteMode() error {
 			}
 		}
 
-		if !f.flags.Append {
-			if _, err := f.writeBuf.Seek(0, io.SeekStart); err != nil {
-				return err
-			}
+		if _, err := f.writeBuf.Seek(pos, io.SeekStart); err != nil {
+			return err
 		}
 	}
 
